@@ -209,7 +209,8 @@ def data3d(rng, ntracks=None, n=None, fmt=None, nlinks=None, masks=None):
             links = np.zeros(nlinks, dtype=LinkType.btype)
             for i in range(nlinks):
                 links[i] = (rng.randint(0, 2**32 - 1), rng.randint(0, 5))
-            b.links = links
+            # a caller may hand the links over as plain (track, track) pairs: same content, another container
+            b.links = [(int(l[0]), int(l[1])) for l in links] if nlinks and rng.random() < 0.3 else links
     return b
 
 
